@@ -238,6 +238,29 @@ def m_from_utf8_lossy(c, s):
     by U+FFFD; harnesses that reach this assume ASCII (recorded)."""
     ip = c.ip
     its = list(items(ip, s))
+    if getattr(ip, 'lossy_invalid', False):
+        # hostile-input mode: besides ASCII, a byte may be one that can never occur in UTF-8 (0xC0, 0xC1, 0xF5..0xFF); each such byte
+        # is a maximal invalid sequence of its own and becomes U+FFFD (EF BF BD).  Other non-ASCII bytes stay outside the claim.
+        out, replaced = [], False
+        for b in its:
+            if b.concrete:
+                if b.v < 128:
+                    out.append(b)
+                elif b.v in (0xC0, 0xC1) or b.v >= 0xF5:
+                    out += [BV(8, 0xEF), BV(8, 0xBF), BV(8, 0xBD)]
+                    replaced = True
+                else:
+                    raise Inconclusive("from_utf8_lossy on a concrete multi-byte sequence")
+            elif ip.branch(z3.ULT(b.v, 128), 'ascii'):
+                out.append(b)
+            else:
+                ip.assume(z3.Or(b.v == 0xC0, b.v == 0xC1, z3.UGE(b.v, 0xF5)))
+                out += [BV(8, 0xEF), BV(8, 0xBF), BV(8, 0xBD)]
+                replaced = True
+        ip.env.setdefault('assumptions', set()).add('from_utf8_lossy: input bytes are ASCII or never-valid UTF-8 bytes (0xC0, 0xC1, 0xF5..0xFF); multi-byte sequences outside the claim')
+        if replaced:
+            return EnumV(BV(64, 1), {'Owned': [Seq(out, 'string')]}, 'Cow')
+        return EnumV(BV(64, 0), {'Borrowed': [Ptr(Cell(Seq(out, 'str'), 'lossy'), ())]}, 'Cow')
     for b in its:
         if not b.concrete:
             ip.assume(z3.ULT(b.v, 128))
